@@ -19,7 +19,7 @@ CHECKS = {
     "C04": ("Hypothesis mutation generators + complete one-edit neighbourhoods + atheris coverage-guided fuzzing, reference-acceptor oracle",
             "Strings (valid vectors, 1-3 stacked mutations from 15 operators, cross-version vectors, arbitrary text, every one-edit neighbour of seed vectors, fuzzer-grown inputs) are classified by an independent reference acceptor; the constructor must accept exactly the grammar, raise the malformed/mandatory error of its version otherwise, and never leak a foreign exception.",
             "String space is unbounded: sampled, plus complete one-edit balls around sampled seeds. Reference acceptor and metric tables are typed from the specifications.", "4/C04"),
-    "C05": ("Hypothesis metamorphic test (permutation x Not-Defined toggles)",
+    "C05": ("Hypothesis metamorphic test (permutation x Not-Defined toggles, whole-group shapes); permutations of every mutant / one-edit-ball member the constructor accepts",
             "Two spellings of the same metric assignment (seeded permutation; any subset / a single one of the Not Defined optionals toggled) must agree on scores, severities, cleaned/RH/sub-vectors, equality both ways and hash.",
             "Sampled over vectors and respellings; every optional metric is toggled in isolation many times per run (class counters in evidence).", "4/C05"),
     "C06": ("Hypothesis metamorphic test over the five substitution clauses, self-validating pairs",
@@ -28,13 +28,13 @@ CHECKS = {
     "C07": ("Hypothesis single/pair/triple generators against a model key from the reference parser",
             "clean_vector() content, prefix handling, re-parse round trip and idempotence; == iff (version incl. minor, defined metric map) equal; hash/observables of equal objects; reflexive/symmetric/transitive; never equal to foreign values; one consistent relative metric order across all outputs of the run.",
             "Sampled over vectors and pair kinds (respelling, one/several metrics changed, 3.0/3.1 twin, other version, independent).", "4/C07"),
-    "C08": ("Hypothesis + deterministic covering set + interactive answer scripts, official vectorString regexes as oracle",
+    "C08": ("Hypothesis + deterministic covering set + interactive answer scripts + library-accepted mutants and one-edit-ball members, emitted after prior accessor calls; official vectorString regexes as oracle",
             "Every emitted string (cleaned vector, vector part of RH notation, builder result) is re-parsed by the library and matched (fullmatch) against the vectorString pattern of the pinned FIRST schema of its version; the covering set makes a one-metric ordering error visible regardless of seed.",
             "Official grammar = pattern of the pinned schemas; sampled over optional-metric subsets and answer scripts.", "4/C08"),
     "C09": ("seeded quotient classes with oracle-selected witnesses for every reachable (slot, score value), pinned band table",
             "For every (version, slot, score value) triple met by an oracle pre-pass a witness vector is pushed through the library: float format, range, None rule, severities() vs the official scale applied to the oracle score, CVSS4.severity and JSON severities agree.",
             "Score values judged against the exact oracles; severity strings compared case-insensitively across exposures.", "4/C09"),
-    "C10": ("Hypothesis + covering set + seeded sweep of score-quotient classes, jsonschema validation against pinned FIRST schemas (Decimal-exact)",
+    "C10": ("Hypothesis + covering set + seeded sweep of score-quotient classes + library-accepted mutants / ball members + objects from from_rh_vector, jsonschema validation against pinned FIRST schemas (Decimal-exact)",
             "as_json() for all four (sort, minimal) pairs, after a JSON round trip, validated with the draft each schema declares; two listed known findings are recognised by shape, normalised and the normalised document must validate completely.",
             "Pinned schema copies; additional properties are allowed by the schemas, so differently named v4 fields are unconstrained.", "4/C10"),
     "C11": ("Hypothesis (incl. zero-score-biased generator) + covering set + seeded sweep of score-quotient classes against a model JSON document",
@@ -43,16 +43,16 @@ CHECKS = {
     "C12": ("Hypothesis + deterministic sweep of all 101 scores and near-miss floats, float() as the definition of 'number', oracle base score",
             "rh_vector() format and round trip; from_rh_vector accepts iff numeric score part, valid vector and exact equality with the oracle base score; error taxonomy (RH-malformed, mismatch, ordinary vector errors); only CVSSnError subclasses escape.",
             "Precedence between a bad score part and a bad vector part is not asserted.", "4/C12"),
-    "C13": ("Hypothesis text generator (planted/near-valid/glued/repeated vectors) + atheris in thorough, reference acceptor as oracle",
+    "C13": ("Hypothesis text generator (planted/near-valid/glued/repeated vectors, Unicode special delimiters) + deterministic delimiter sweep + atheris, reference acceptor as oracle",
             "Totality (no exception of any type), soundness (each result built from a substring that the reference acceptor accepts for that version), completeness for planted vectors that occur delimited, pairwise inequality by model key.",
             "Unbounded text space sampled; results compared as sets.", "4/C13"),
-    "C14": ("exhaustive score tables through the library + numpy.diff along severity axes; sampled mixed-spelling pairs",
+    "C14": ("exhaustive score tables through the library + numpy.diff along severity axes; sampled (uniform and macrovector-stratified) mixed-spelling pairs incl. steps of overridden base metrics",
             "Thorough: every pair of vectors one severity step apart in the complete tables (v4: 15,116,544 entries, ~150M pairs; v3 base/temporal/environmental in base and Modified spelling; v2 base/temporal). Quick: seeded classes x all one-step-up neighbours. Oracle is the order relation only.",
             "Severity orders typed from the specifications; v3.0 environmental score exempt for impact and requirement metrics as the statement says.", "4/C14"),
     "C15": ("Hypothesis against model sub-vectors from the reference parser; re-assembly round trip",
             "temporal_vector()/environmental_vector() must equal the model string exactly (each metric once, specification order, input value / ND / X / base value) and base + both sub-vectors must be accepted and score identically.",
             "Sampled over v2/v3 vectors.", "4/C15"),
-    "C16": ("model-based Hypothesis test of the dialogue + covering set of every legal value",
+    "C16": ("model-based Hypothesis test of the dialogue + covering set of every legal value + deterministic long-retry scripts",
             "Answer scripts (retries, junk, empty, case variants, truncation) are fed to the builder through a counting fake stdin; an independent dialogue model must consume the same number of answers and produce the same vector; the class must accept it; EOF surfaces as EOFError.",
             "Asking order taken from the returned vector (any order accepted); prompts are not asserted.", "4/C16"),
     "C17": ("Hypothesis-generated command lines, in-process main() with patched argv/stdin/stdout + real subprocess sample; API differential and dialogue model as oracle",
